@@ -10,6 +10,7 @@ import (
 	"os"
 	"sort"
 	"strconv"
+	"strings"
 	"sync"
 	"testing"
 
@@ -53,6 +54,9 @@ var (
 
 var dictNames = []string{"FIX40", "FIX41", "FIX42", "FIX43", "FIX44", "FIX50", "FIX50SP1", "FIX50SP2", "FIXT11"}
 
+// c11CustomHeaderTag is a header field only by virtue of the custom transport dictionary.
+const c11CustomHeaderTag = 10030
+
 func dicts(t fataler) map[string]*dictPair {
 	dictOnce.Do(func() {
 		dictMap = map[string]*dictPair{}
@@ -69,6 +73,20 @@ func dicts(t fataler) map[string]*dictPair {
 			}
 			dictMap[n] = &dictPair{n, sp, dd}
 		}
+		// a counterparty-specific transport dictionary: the shipped FIXT11 plus one user-defined header field
+		text, err := os.ReadFile(specDir + "FIXT11.xml")
+		if err != nil {
+			dictErr = err
+			return
+		}
+		custom := strings.Replace(string(text), "<header>", "<header>\n    <field name='VenueRoutingHint' required='N'/>", 1)
+		custom = strings.Replace(custom, "<fields>", fmt.Sprintf("<fields>\n    <field number='%d' name='VenueRoutingHint' type='STRING'/>", c11CustomHeaderTag), 1)
+		cdd, err := datadictionary.ParseSrc(strings.NewReader(custom))
+		if err != nil {
+			dictErr = err
+			return
+		}
+		dictMap["FIXT11+custom-header"] = &dictPair{"FIXT11+custom-header", nil, cdd}
 	})
 	if dictErr != nil {
 		t.Fatalf("cannot load dictionaries: %v", dictErr)
@@ -139,15 +157,17 @@ func compareItems(rg *quickfix.RepeatingGroup, it *specxml.Item) error {
 }
 
 type c11case struct {
-	mode      string // none | app | fixt
-	dict      string
-	transport *datadictionary.DataDictionary
-	app       *datadictionary.DataDictionary
-	begin     string
-	rest      []fixwire.Field // everything after 9= up to before 10=
-	items     []*specxml.Item // dictionary-conforming body (modes app/fixt)
-	hasXML    bool
-	hasGroup  bool
+	customHeader int    // tag that the (custom) transport dictionary declares as a header field, 0 = none
+	reuse        bool   // the Message object has been used for another message before
+	mode         string // none | app | fixt
+	dict         string
+	transport    *datadictionary.DataDictionary
+	app          *datadictionary.DataDictionary
+	begin        string
+	rest         []fixwire.Field // everything after 9= up to before 10=
+	items        []*specxml.Item // dictionary-conforming body (modes app/fixt)
+	hasXML       bool
+	hasGroup     bool
 }
 
 func genHeaderRest(t *rapid.T, msgType string, withXML *bool) []fixwire.Field {
@@ -228,23 +248,62 @@ func genC11(t *rapid.T, d map[string]*dictPair) *c11case {
 		cs.rest = genHeaderRest(t, md.MsgType, &dummy)
 		// XMLData inside dictionary modes is left to mode none (the dictionary header lists 212/213 too, same path)
 		cs.hasXML = dummy
-		for _, f := range specxml.Flatten(cs.items) {
-			cs.rest = append(cs.rest, fixwire.F(f.Tag, f.Value))
+		// with the custom transport dictionary its extra header field is carried once: among the
+		// header fields, or further down the message - directly after a group or a body field
+		place := -2
+		if cs.mode == "fixt" && rapid.Bool().Draw(t, "custom-transport-dictionary") {
+			cs.transport = d["FIXT11+custom-header"].dd
+			cs.customHeader = c11CustomHeaderTag
+			place = -1
+			if len(cs.items) > 0 && rapid.IntRange(0, 2).Draw(t, "custom-header-in-body-region") != 0 {
+				place = rapid.IntRange(0, len(cs.items)-1).Draw(t, "custom-header-after-item")
+				var groups []int
+				for i, it := range cs.items {
+					if it.IsGroup && len(it.Entries) > 0 {
+						groups = append(groups, i)
+					}
+				}
+				if len(groups) > 0 && rapid.Bool().Draw(t, "after-a-group") {
+					place = groups[rapid.IntRange(0, len(groups)-1).Draw(t, "which-group")]
+				}
+			}
 		}
-		for _, it := range cs.items {
+		if place == -1 {
+			cs.rest = append(cs.rest, fixwire.F(c11CustomHeaderTag, "hint"))
+		}
+		for i, it := range cs.items {
+			for _, f := range specxml.Flatten([]*specxml.Item{it}) {
+				cs.rest = append(cs.rest, fixwire.F(f.Tag, f.Value))
+			}
 			if it.IsGroup {
 				cs.hasGroup = true
+			}
+			if i == place {
+				cs.rest = append(cs.rest, fixwire.F(c11CustomHeaderTag, "hint"))
+				if it.IsGroup {
+					c11().Class("custom-header-field-right-after-group")
+				}
 			}
 		}
 	}
 	if rapid.IntRange(0, 3).Draw(t, "sig") == 0 {
 		cs.rest = append(cs.rest, fixwire.F(93, "3"), fixwire.F(89, "abc"))
 	}
+	cs.reuse = rapid.IntRange(0, 2).Draw(t, "reused-message-object") == 0
 	return cs
 }
 
+// c11Prior is parsed into the message object first when a case reuses it (as a caller that
+// keeps one Message per connection would): nothing of it may show in the second parse.
+var c11Prior = fixwire.Build("FIX.4.4", []fixwire.Field{fixwire.F(35, "D"), fixwire.F(49, "OLD"), fixwire.F(56, "OLDT"), fixwire.F(34, "77"), fixwire.F(50, "oldsub"), fixwire.F(115, "oldobo"),
+	fixwire.F(52, "20200101-00:00:00.000"), fixwire.F(11, "oldid"), fixwire.F(453, "2"), fixwire.F(448, "P1"), fixwire.F(447, "D"), fixwire.F(448, "P2"), fixwire.F(447, "D"), fixwire.F(55, "OLDSYM"), fixwire.F(58, "old text"), fixwire.F(5001, "u"), fixwire.F(93, "2"), fixwire.F(89, "zz")})
+
 func (cs *c11case) parse(b []byte) (*quickfix.Message, error) {
 	m := quickfix.NewMessage()
+	if cs.reuse {
+		_ = quickfix.ParseMessageWithDataDictionary(m, bytes.NewBuffer(append([]byte(nil), c11Prior...)), cs.transport, cs.app)
+		c11().Class("parsed-into-used-message")
+	}
 	err := quickfix.ParseMessageWithDataDictionary(m, bytes.NewBuffer(b), cs.transport, cs.app)
 	return m, err
 }
@@ -343,6 +402,9 @@ func c11Property(t *rapid.T) {
 			continue
 		}
 		fm, name := sectionOf(m, f.Tag)
+		if cs.customHeader != 0 && f.Tag == cs.customHeader {
+			fm, name = &m.Header.FieldMap, "header(by-dictionary)"
+		}
 		got, gerr := fm.GetBytes(quickfix.Tag(f.Tag))
 		if gerr != nil {
 			vk.Violation(t, c, "C11/field/not-in-section/"+name+"/"+cs.mode, "tag %d not retrievable from the %s: %s", f.Tag, name, vk.Show(raw))
